@@ -558,7 +558,7 @@ func genWireToken(c *choice.Ctx, p int, variant int) *wireToken {
 		emit(k.vsi, "vsi", cls)
 	}
 	// extra keys and map-level shape
-	xk := c.Choose("extra-keys", 11)
+	xk := c.Choose("extra-keys", 14)
 	if xk != 0 {
 		t.devs = append(t.devs, fmt.Sprintf("extra-keys=%d", xk))
 	}
@@ -588,12 +588,17 @@ func genWireToken(c *choice.Ctx, p int, variant int) *wireToken {
 		t.tree.Put(mcbor.U(9999), v)
 	case 10: // unknown text and integer keys with large / structured values, placed first
 		t.tree.Pairs = append([][2]*mcbor.Node{{mcbor.T("vendor-extension"), mcbor.M(mcbor.T("a"), mcbor.A(mcbor.B(pat(300, 1)), mcbor.F(2.5, 4)))}, {mcbor.U(1 << 40), mcbor.Tg(37, mcbor.B(pat(16, 2)))}}, t.tree.Pairs...)
+	case 11, 12, 13: // many unknown keys: 40, 70, 1030 (more map pairs than a small fixed limit)
+		n := map[int]int{11: 40, 12: 70, 13: 1030}[xk]
+		for i := 0; i < n; i++ {
+			t.tree.Put(mcbor.U(uint64(70000+i)), mcbor.U(uint64(i)))
+		}
 	case 6: // a byte-string key is outside the claim-key space (integers / text): no verdict
 		t.tree.Put(mcbor.B([]byte{1}), mcbor.U(1))
 		t.st = wOpen
 		t.open = append(t.open, "bstr-map-key")
 	}
-	ms := c.Choose("map-shape", 10)
+	ms := c.Choose("map-shape", 14)
 	if ms != 0 {
 		t.devs = append(t.devs, fmt.Sprintf("map-shape=%d", ms))
 	}
@@ -627,6 +632,19 @@ func genWireToken(c *choice.Ctx, p int, variant int) *wireToken {
 		t.tree = mcbor.Tg(55799, t.tree)
 		t.st = wOpen
 		t.open = append(t.open, "tagged-map")
+	case 10, 11: // every integer key with a non-shortest head (4 / 8 argument bytes): the same keys
+		for i := range t.tree.Pairs {
+			if k := t.tree.Pairs[i][0]; k.K == mcbor.Uint || k.K == mcbor.Nint {
+				t.tree.Pairs[i][0] = k.W(map[int]int{10: 4, 11: 8}[ms])
+			}
+		}
+	case 12, 13: // only the profile key (13: the first key) with a non-shortest head
+		for i := range t.tree.Pairs {
+			kk, _ := t.tree.Pairs[i][0].Int()
+			if (ms == 12 && kk == k.profile) || (ms == 13 && i == 0) {
+				t.tree.Pairs[i][0] = t.tree.Pairs[i][0].W(4)
+			}
+		}
 	case 9: // rotate by half
 		if n := len(t.tree.Pairs); n > 1 {
 			h := n / 2
